@@ -890,7 +890,8 @@ where
     let cap = q.cie.len() + q.fde.len() + 4;
     let (rows, res) = rows_storage(storage, section, &bases, &fde, secbytes, cap)?;
     let texts: Vec<String> = rows.iter().map(|r| r.text.clone()).collect();
-    let lookup_problem = if do_lookup {
+    // (no lookups when the table itself did not terminate: gimli's lookup loop would not either)
+    let lookup_problem = if do_lookup && !matches!(res, Err(gimli::Error::TooManyIterations)) {
         match storage {
             "heap" => lookup_with::<Sec, StoreOnHeap>(section, &bases, &fde, secbytes, &rows, &res),
             "vec" => lookup_with::<Sec, StVec>(section, &bases, &fde, secbytes, &rows, &res),
@@ -1487,7 +1488,77 @@ fn roweq<St: UnwindContextStorage<usize> + PartialEq>(a: &Req, b: &Req) -> Optio
 
 // ---------------------------------------------------------------- handler
 
+/// set once a `cfi-*` request did not come back in time (see `handle`)
+static CIRCUIT_OPEN: std::sync::atomic::AtomicBool = std::sync::atomic::AtomicBool::new(false);
+
+type Job = (String, Vec<String>);
+struct Helper {
+    tx: std::sync::mpsc::Sender<Job>,
+    rx: std::sync::mpsc::Receiver<Option<String>>,
+}
+static HELPER: std::sync::Mutex<Option<Helper>> = std::sync::Mutex::new(None);
+
+fn start_helper() -> Option<Helper> {
+    let (tx, jobs) = std::sync::mpsc::channel::<Job>();
+    let (replies, rx) = std::sync::mpsc::channel::<Option<String>>();
+    std::thread::Builder::new()
+        .stack_size(4 << 20)
+        .spawn(move || {
+            while let Ok((op, args)) = jobs.recv() {
+                let refs: Vec<&str> = args.iter().map(|s| s.as_str()).collect();
+                let r = std::panic::catch_unwind(|| handle_inner(&op, &refs));
+                let out = match r {
+                    Ok(x) => x,
+                    Err(p) => {
+                        let msg = p.downcast_ref::<&str>().map(|s| s.to_string()).or_else(|| p.downcast_ref::<String>().cloned()).unwrap_or_else(|| "?".into());
+                        Some(format!("panic {}", msg.replace('\n', " ")))
+                    }
+                };
+                if replies.send(out).is_err() {
+                    break;
+                }
+            }
+        })
+        .ok()?;
+    Some(Helper { tx, rx })
+}
+
+/// Every `cfi-*` request runs gimli on a helper thread with a deadline.  A change that makes
+/// `next_row` / `initialize` loop forever would otherwise cost the orchestrator's full per-case
+/// watchdog (and a worker restart) for each of ~10^5 cases: after the first request that misses
+/// its deadline this worker answers `hang` at once for the rest of its life (each such answer is a
+/// reported failure), so the run still ends in minutes.  The stuck helper thread is abandoned.
 pub fn handle(op: &str, a: &[&str]) -> Option<String> {
+    use std::sync::atomic::Ordering;
+    if !matches!(op, "cfi-unwind" | "cfi-decode" | "cfi-blk" | "cfi-seq" | "cfi-corpus" | "cfi-roweq") {
+        return None;
+    }
+    if CIRCUIT_OPEN.load(Ordering::Relaxed) {
+        return Some("hang circuit-open: an earlier cfi request did not return within its deadline".into());
+    }
+    // below the orchestrator's own per-case watchdog (20 s in the quick tier)
+    let deadline = std::time::Duration::from_secs(if op == "cfi-blk" { 16 } else { 12 });
+    let mut guard = match HELPER.lock() {
+        Ok(g) => g,
+        Err(_) => return handle_inner(op, a),
+    };
+    if guard.is_none() {
+        *guard = start_helper();
+    }
+    let Some(h) = guard.as_ref() else { return handle_inner(op, a) };
+    if h.tx.send((op.to_string(), a.iter().map(|s| s.to_string()).collect())).is_err() {
+        return handle_inner(op, a);
+    }
+    match h.rx.recv_timeout(deadline) {
+        Ok(r) => r,
+        Err(_) => {
+            CIRCUIT_OPEN.store(true, Ordering::Relaxed);
+            Some("hang the request did not return within its deadline".into())
+        }
+    }
+}
+
+fn handle_inner(op: &str, a: &[&str]) -> Option<String> {
     let with_oracle = |s: String, o: Option<String>| match o {
         Some(w) => {
             let mut it = w.splitn(2, ' ');
